@@ -351,11 +351,14 @@ def report(prop, mod, a, outs, seed, t0):
                          if r['verdict'] != 'proved'),
             tier=a.tier)
         old = load_json(baseline_path, None)
-        if old and a.tier == 'quick' and old.get('tier') == 'thorough':
-            # keep thorough-only names
+        if old and ((a.tier == 'quick' and old.get('tier') == 'thorough')
+                    or getattr(a, 'only', None)):
+            # keep thorough-only names / names of tasks not run (--only)
             bl['proved'] = sorted(set(bl['proved']) | set(
                 n for n in old['proved'] if n not in byname))
-            bl['tier'] = 'thorough'
+            bl['known'] = sorted(set(bl['known']) | set(
+                n for n in old.get('known', []) if n not in byname))
+            bl['tier'] = old.get('tier', a.tier)
         with open(baseline_path, 'w') as f:
             json.dump(bl, f, indent=1)
         print('baseline written: %d proved, %d not proved' %
